@@ -268,10 +268,13 @@ Proof.
   unfold Identity.session.
   assert (EL : server_lookup (requested s) (srv_id s) = Ok tt).
   { apply server_lookup_ok. rewrite Hr. split; [reflexivity|assumption]. }
-  rewrite EL. rewrite Hcc, Hclc, Hcs, Hcls, <- Hhb, <- Hha.
-  rewrite consistent_accepts; [|rewrite Hhb; assumption|intros _; rewrite Hd; symmetry; exact Hhb].
-  rewrite consistent_accepts; [|rewrite Hha; assumption|discriminate].
-  rewrite Hha, Hhb. cbn [attach_key].
+  assert (EC : evaluate Client (cl_id s) (dialled s) (Some cb) (Some (srv_id s))
+               = Accept (srv_id s) (i_am_master (cl_id s) (srv_id s))).
+  { rewrite <- Hhb. apply consistent_accepts; [rewrite Hhb; assumption|]. intros _. rewrite Hd. exact Hhb. }
+  assert (ES : evaluate Server (srv_id s) [] (Some ca) (Some (cl_id s))
+               = Accept (cl_id s) (i_am_master (srv_id s) (cl_id s))).
+  { rewrite <- Hha. apply consistent_accepts; [rewrite Hha; assumption|discriminate]. }
+  rewrite EL, Hcc, Hclc, Hcs, Hcls, EC, ES. cbn [attach_key].
   assert (Hmc : master_cmp = CmpGt) by reflexivity.
   rewrite (master_flip (srv_id s) (cl_id s) Hmc (fun e => Hne (eq_sym e))).
   assert (EU : inbound_url_check (dialled s) (srv_id s) = Ok tt).
@@ -291,7 +294,7 @@ Qed.
 
 (* ------------------------------------------------------------------ the table over all histories *)
 
-Definition justified (my_id : id) (e : id * conn) : Prop :=
+Definition justified (my_id : id) (e : id * conn cert) : Prop :=
   (conn_loop cert (snd e) = true /\ fst e = my_id) \/
   (conn_loop cert (snd e) = false /\ proven (conn_cert cert (snd e)) (fst e)).
 
